@@ -531,6 +531,22 @@ def _(it, a, info):
     return Err(Struct('RecvError', []))
 
 
+@tmodel('Receiver::try_recv')
+def _(it, a, info):
+    w = world(it)
+    r = deref(it, a[0])
+    ok = w.fresh_bool('try_recv_ok')
+    disc = w.fresh_bool('try_recv_disconnected')
+    kind = w.fresh_bv('kind', 8)
+    pay = w.fresh_bv('payload')
+    w.emit('try_recv', r.oid, [], {'ok': ok, 'disc': disc, 'kind': kind, 'payload': pay})
+    if it.ctx.branch(ok):
+        return Ok(rebuild_elem(it, w, r.oid, 0, pay))
+    if it.ctx.branch(disc):
+        return Err(Enum('TryRecvError', 'Disconnected', 1, []))
+    return Err(Enum('TryRecvError', 'Empty', 0, []))
+
+
 # ----------------------------------------------------------------------------------------- sequential-mode models
 SEQ = {}
 
